@@ -51,6 +51,11 @@ checks = {
    text=WHOLE + "decided is that registered operators are the same mechanism as built-ins and the bookkeeping is exact: registered infix/prefix closures have the operand-parsing summary of the built-in binary/unary methods (own level read before advancing / constant unary level, one advance, through the interceptable expression function); registered postfix stores the call level and consumes nothing; the level is stored and passed unchanged into the parser's own table; the three duplicate sets equal the parser's prefix keys / infix keys / postfix entries and binding-power keys equal infix keys; refusal paths are write-free and success paths both record and mark; the token-id allocator is single-writer, memoised, pre-increment. Tree shapes against every neighbour are not computed.",
    ref="DESIGN.md §3 C05",
    note="Trusted: go/types, go/ssa; NewBuilder seeds recognised as map literals or a range over the package-level binding-power table (other idioms fail closed)."),
+ "C09": dict(
+   technique="SSA def-use/phi analysis of the encoder loop (sibling cross-check of the five delta fields), constants read by value against the spec, path-per-iteration effect rule for line-break accounting, who-may-write rules",
+   text=WHOLE + "decided is the encoder's discipline: each of the five segment fields is emitted as (field − loop-carried previous) with the previous updated to that same field under the same condition, generated column reset exactly at ';', field order 1-2-3-4-(5), ',' iff a segment precedes on the line, ';' per generated line; the Base64 alphabet and the VLQ bit constants (mask 31, shift 5, continuation 32, sign in LSB, LSB-first, termination) equal the specification; names are interned with index = length before append and write-free hits; Version is 3; AdvanceString counts \\n, \\r\\n and \\r as one line break each with exact index advance. The tests only check `mappings != \"\"`-style facts, so a lost update or reset survives them. VLQ arithmetic for every integer and decoded equality are not decided.",
+   ref="DESIGN.md §3 C09",
+   note="Trusted: go/ssa phi placement; exported field names of sourcemap.Mapping as anchors."),
 }
 na_pending = "rule set designed in DESIGN.md §3 but not yet armed in xjscheck; not claimed until it is silent on the unchanged tree and shown to fire on seeded variants"
 all_ids = ["C%02d" % i for i in range(1, 17)]
